@@ -361,8 +361,24 @@ func rewrite(p *packages.Package, f *ast.File) {
 				return true
 			}
 			k, ok := s.Key.(*ast.Ident)
-			if !ok || k.Name == "_" || s.Value != nil {
+			if !ok {
 				return true
+			}
+			var val *ast.Ident
+			if s.Value != nil {
+				val, ok = s.Value.(*ast.Ident)
+				if !ok {
+					return true
+				}
+				if val.Name == "_" {
+					val = nil
+				}
+			}
+			if k.Name == "_" {
+				if val == nil {
+					return true
+				}
+				k = ast.NewIdent(fmt.Sprintf("idx%d", site))
 			}
 			if _, lab := c.Parent().(*ast.LabeledStmt); lab {
 				return true
@@ -407,12 +423,16 @@ func rewrite(p *packages.Package, f *ast.File) {
 				switch a := n.(type) {
 				case *ast.AssignStmt:
 					for _, l := range a.Lhs {
-						if id, ok := l.(*ast.Ident); ok && id.Name == k.Name {
+						if id, ok := l.(*ast.Ident); ok && (id.Name == k.Name || (val != nil && id.Name == val.Name)) {
 							assigned = true
 						}
 					}
 				case *ast.IncDecStmt:
-					if id, ok := a.X.(*ast.Ident); ok && id.Name == k.Name {
+					if id, ok := a.X.(*ast.Ident); ok && (id.Name == k.Name || (val != nil && id.Name == val.Name)) {
+						assigned = true
+					}
+				case *ast.UnaryExpr:
+					if id, ok := a.X.(*ast.Ident); ok && a.Op == token.AND && val != nil && id.Name == val.Name {
 						assigned = true
 					}
 				case *ast.FuncLit:
@@ -427,7 +447,13 @@ func rewrite(p *packages.Package, f *ast.File) {
 				Init: &ast.AssignStmt{Lhs: []ast.Expr{ast.NewIdent(k.Name)}, Tok: token.DEFINE, Rhs: []ast.Expr{&ast.BasicLit{Kind: token.INT, Value: "0"}}},
 				Cond: &ast.BinaryExpr{X: ast.NewIdent(k.Name), Op: token.LSS, Y: &ast.CallExpr{Fun: ast.NewIdent("len"), Args: []ast.Expr{s.X}}},
 				Post: &ast.IncDecStmt{X: ast.NewIdent(k.Name), Tok: token.INC},
-				Body: s.Body,
+				Body: func() *ast.BlockStmt {
+					if val == nil {
+						return s.Body
+					}
+					first := &ast.AssignStmt{Lhs: []ast.Expr{ast.NewIdent(val.Name)}, Tok: token.DEFINE, Rhs: []ast.Expr{&ast.IndexExpr{X: s.X, Index: ast.NewIdent(k.Name)}}}
+					return &ast.BlockStmt{List: append([]ast.Stmt{first}, s.Body.List...)}
+				}(),
 			})
 			return true
 		})
@@ -570,6 +596,109 @@ func rewrite(p *packages.Package, f *ast.File) {
 						out = append(out, &ast.AssignStmt{Lhs: []ast.Expr{ast.NewIdent(name)}, Tok: token.DEFINE, Rhs: []ast.Expr{ac}})
 						call.Args[i] = ast.NewIdent(name)
 						break
+					}
+				}
+				out = append(out, st)
+			}
+			b.List = out
+			return true
+		})
+	case "split-and":
+		// if a && b { X }  ->  if a { if b { X } }   (no else, no init)
+		astutil.Apply(f, nil, func(c *astutil.Cursor) bool {
+			s, ok := c.Node().(*ast.IfStmt)
+			if !ok || s.Else != nil || s.Init != nil {
+				return true
+			}
+			b, ok := s.Cond.(*ast.BinaryExpr)
+			if !ok || b.Op != token.LAND {
+				return true
+			}
+			if _, isElse := c.Parent().(*ast.IfStmt); isElse {
+				return true
+			}
+			if !pick() {
+				return true
+			}
+			inner := &ast.IfStmt{Cond: b.Y, Body: s.Body}
+			s.Cond, s.Body = b.X, &ast.BlockStmt{List: []ast.Stmt{inner}}
+			return true
+		})
+	case "merge-and":
+		// if a { if b { X } }  ->  if a && b { X }
+		astutil.Apply(f, nil, func(c *astutil.Cursor) bool {
+			s, ok := c.Node().(*ast.IfStmt)
+			if !ok || s.Else != nil || s.Init != nil || len(s.Body.List) != 1 {
+				return true
+			}
+			in, ok := s.Body.List[0].(*ast.IfStmt)
+			if !ok || in.Else != nil || in.Init != nil {
+				return true
+			}
+			if !pick() {
+				return true
+			}
+			par := func(e ast.Expr) ast.Expr {
+				if b, ok := e.(*ast.BinaryExpr); ok && b.Op == token.LOR {
+					return &ast.ParenExpr{X: e}
+				}
+				return e
+			}
+			s.Cond, s.Body = &ast.BinaryExpr{X: par(s.Cond), Op: token.LAND, Y: par(in.Cond)}, in.Body
+			return true
+		})
+	case "early-continue":
+		// for … { …; if c { BODY } }  ->  for … { …; if !c { continue }; BODY }   (the if is the last statement of the loop body)
+		astutil.Apply(f, nil, func(c *astutil.Cursor) bool {
+			var body *ast.BlockStmt
+			switch l := c.Node().(type) {
+			case *ast.ForStmt:
+				body = l.Body
+			case *ast.RangeStmt:
+				body = l.Body
+			}
+			if body == nil || len(body.List) == 0 {
+				return true
+			}
+			s, ok := body.List[len(body.List)-1].(*ast.IfStmt)
+			if !ok || s.Else != nil || s.Init != nil || len(s.Body.List) < 2 {
+				return true
+			}
+			if !pick() {
+				return true
+			}
+			guard := &ast.IfStmt{Cond: not(s.Cond), Body: &ast.BlockStmt{List: []ast.Stmt{&ast.BranchStmt{Tok: token.CONTINUE}}}}
+			body.List = append(append(body.List[:len(body.List)-1:len(body.List)-1], guard), s.Body.List...)
+			return true
+		})
+	case "temp-return":
+		// return f(x)  ->  res := f(x); return res     (one result that is a call with a single, typed value)
+		n := 0
+		astutil.Apply(f, nil, func(c *astutil.Cursor) bool {
+			b, ok := c.Node().(*ast.BlockStmt)
+			if !ok {
+				return true
+			}
+			var out []ast.Stmt
+			for _, st := range b.List {
+				if r, ok := st.(*ast.ReturnStmt); ok && len(r.Results) == 1 {
+					if call, ok := r.Results[0].(*ast.CallExpr); ok {
+						tv, has := info.Types[call]
+						if has && !tv.IsType() && tv.Type != nil {
+							if _, isTuple := tv.Type.(*types.Tuple); !isTuple {
+								if bt, isB := tv.Type.(*types.Basic); !isB || bt.Info()&types.IsUntyped == 0 {
+									if tvf, ok := info.Types[call.Fun]; !ok || !tvf.IsType() {
+										if pick() {
+											n++
+											name := fmt.Sprintf("result%d", n)
+											out = append(out, &ast.AssignStmt{Lhs: []ast.Expr{ast.NewIdent(name)}, Tok: token.DEFINE, Rhs: []ast.Expr{call}})
+											out = append(out, &ast.ReturnStmt{Results: []ast.Expr{ast.NewIdent(name)}})
+											continue
+										}
+									}
+								}
+							}
+						}
 					}
 				}
 				out = append(out, st)
